@@ -21,14 +21,21 @@ Qed.
 
 Lemma den_exec_tr_incl d ps r : forall p tr, incl tr (snd (den_exec d ps r p tr)).
 Proof.
-  induction p as [v|e|i k IH]; intros tr; simpl; try apply incl_refl.
-  destruct (nth_error ps i) as [q|]; [|apply incl_refl].
-  destruct (negb (p_lazy q)); [apply incl_refl|].
-  destruct (p_src q) as [src|]; [|apply IH].
-  destruct (d src (r && p_strict q)) as [dd t].
-  assert (Hi : incl tr (tr ++ t)) by (apply incl_appl, incl_refl).
-  destruct dd; simpl; try exact Hi;
-    (destruct (p_typed q && negb (p_compat q _)); simpl; [exact Hi|eapply incl_tran; [exact Hi|apply IH]]).
+  induction p as [v|e|i k IH|i k IHk h IHh]; intros tr; simpl; try apply incl_refl.
+  - destruct (nth_error ps i) as [q|]; [|apply incl_refl].
+    destruct (negb (p_lazy q)); [apply incl_refl|].
+    destruct (p_src q) as [src|]; [|apply IH].
+    destruct (d src (r && p_strict q)) as [dd t].
+    assert (Hi : incl tr (tr ++ t)) by (apply incl_appl, incl_refl).
+    destruct dd; simpl; try exact Hi;
+      (destruct (p_typed q && negb (p_compat q _)); simpl; [exact Hi|eapply incl_tran; [exact Hi|apply IH]]).
+  - destruct (nth_error ps i) as [q|]; [|apply incl_refl].
+    destruct (negb (p_lazy q)); [apply incl_refl|].
+    destruct (p_src q) as [src|]; [|apply IHk].
+    destruct (d src (r && p_strict q)) as [dd t].
+    assert (Hi : incl tr (tr ++ t)) by (apply incl_appl, incl_refl).
+    destruct dd; simpl; try (eapply incl_tran; [exact Hi|apply IHh]);
+      (destruct (p_typed q && negb (p_compat q _)); simpl; (eapply incl_tran; [exact Hi|]); [apply IHh|apply IHk]).
 Qed.
 
 Ltac splits := repeat match goal with |- _ /\ _ => split end.
@@ -40,12 +47,17 @@ Variable rank : name -> nat.
 Hypothesis Hrank : ranked g rank.
 Variable F : nat.
 Hypothesis HF : forall n, rank n < F.
+(* the refinement is stated for bodies that do not catch the exceptions of their lazy inputs: a body
+   that catches can tell a node that failed a moment ago ("previously failed") from one that fails now,
+   which no memo-free evaluation can; what holds for catching bodies is in C02_basic (at most once,
+   failed nodes are not retried, only reachable nodes run) *)
+Hypothesis Hcf : catch_free g.
 Local Notation D := (C02_den.D g inputs F).
 
 Let D_fix' := D_fix g inputs rank Hrank F HF.
-Let D_val_any' := D_val_any g inputs rank Hrank F HF.
-Let D_val_from' := D_val_from g inputs rank Hrank F HF.
-Let D_skip_true' := D_skip_true g inputs rank Hrank F HF.
+Let D_val_any' := D_val_any g inputs rank Hrank F HF Hcf.
+Let D_val_from' := D_val_from g inputs rank Hrank F HF Hcf.
+Let D_skip_true' := D_skip_true g inputs rank Hrank F HF Hcf.
 
 Definition val_ok (v : option val) (d : dres * list name) (r : bool) : Prop :=
   fst d = DVal v \/ (fst d = DSkip /\ v = None /\ r = false).
@@ -229,14 +241,14 @@ Proof.
     + apply Hnone; [exact Hrun|exact Hden].
 Qed.
 Lemma exec_spec ps : (forall src, In src (srcs ps) -> rank src < rank n) ->
-  forall p s tr s' res d tr', Inv s -> P s (rank n) ->
+  forall p, nocatch p -> forall s tr s' res d tr', Inv s -> P s (rank n) ->
   exec rec ps r p s = (s', res) -> den_exec D ps r p tr = (d, tr') ->
   match res with
   | Err e => d = DErr e /\ logsub s s' tr'
   | Ok v => d = DVal v /\ Inv s' /\ frame s s' /\ logsub s s' tr' /\ trsub tr tr' s'
   end.
 Proof.
-  intros Hps. induction p as [v|e|i kk IH]; intros s tr s' res d tr' Hi HP Hrun Hden; simpl in Hrun, Hden.
+  intros Hps p Hnc. induction Hnc as [v|e|i kk Hkk IH]; intros s tr s' res d tr' Hi HP Hrun Hden; simpl in Hrun, Hden.
   - inversion Hrun; inversion Hden; subst. splits; auto using frame_refl, logsub_refl. intros c Hc; auto.
   - inversion Hrun; inversion Hden; subst. split; auto using logsub_refl.
   - destruct (nth_error ps i) as [q|] eqn:Eq; [|inversion Hrun; inversion Hden; subst; split; auto using logsub_refl].
@@ -432,7 +444,7 @@ Proof.
         { destruct I1 as [a1 b1 c1 d1 e1]. constructor; simpl; auto. intros m c Hm Hc. right. eapply e1; eauto. }
         assert (Pa : P (add_log s1 n) (rank n)) by (exact (frame_P _ _ _ F1 P0)).
         assert (Fa : frame s1 (add_log s1 n)) by (constructor; simpl; auto).
-        pose proof (exec_spec rec k Hrec n Hn r ps Hps (body a) (add_log s1 n) (tra ++ [n]) s2 r2 d tre Ia Pa Ee Ede) as HE.
+        pose proof (exec_spec rec k Hrec n Hn r ps Hps (body a) (Hcf n ps body (lookup_in _ _ _ Eg) a) (add_log s1 n) (tra ++ [n]) s2 r2 d tre Ia Pa Ee Ede) as HE.
         assert (Hi2 : incl (tra ++ [n]) tre).
         { pose proof (den_exec_tr_incl D ps r (body a) (tra ++ [n])) as X. rewrite Ede in X. exact X. }
         assert (Lall : forall sx, logsub (add_log s1 n) sx tre -> logsub s sx tre).
